@@ -1,4 +1,5 @@
-"""Per-property configuration of ./check (levels, drivers, trusted base)."""
+"""Per-property configuration of ./check: one JSON file per property under cfg/."""
+import json, os, glob
 
 COMMON_TRUSTED = [
     "Coq 8.16.1 kernel (coqc, full .vo build; vm_compute used, native_compute not used)",
@@ -6,14 +7,9 @@ COMMON_TRUSTED = [
     "hand-written ocaml/<id>/driver.ml (parsing, printing) and the Go harness (generation, observation, canonicalisation)",
 ]
 
-PROPS = {
-    "C18": {
-        "level": "proof",
-        "driver": ("c18", "C18", ["conv_nat", "conv_z"]),
-        "shrink": "tokens",
-        "trusted": ["model of disjoint.Set written by hand (coq/Disjoint/Model.v), tied to /repo by correspondence on every run"],
-        "assumptions": ["indices passed to Find/Union are in [0,n) (Go panics otherwise; the model returns None)",
-                        "FindBuffered's buffer has capacity >= 1"],
-        "explanation": "theorems over all n and all finite histories on the array-level model; correspondence of the extracted model with disjoint.Set after every operation",
-    },
-}
+PROPS = {}
+for _p in sorted(glob.glob(os.path.join(os.path.dirname(os.path.abspath(__file__)), "cfg", "C*.json"))):
+    _c = json.load(open(_p))
+    if _c.get("driver"):
+        _c["driver"] = (_c["driver"][0], _c["driver"][1], list(_c["driver"][2]))
+    PROPS[os.path.basename(_p)[:-5]] = _c
